@@ -23,13 +23,15 @@ def exc_name(e):
 
 
 # ------------------------------------------------------------------------------ writers
-def verify_writer(reg, fn, contract, label=None):
+def verify_writer(reg, fn, contract, label=None, history_replayer=None):
     """for every kind of argument: body raises exactly the contracted error (nothing written)
     or appends exactly the spec encoding"""
     results = []
     for kind in contract.kinds:
         unit = f"L1/writer/{label or contract.name}/{'_'.join(map(str, kind))}"
         res = Result(unit)
+        if history_replayer is not None:
+            res.history_replayer = history_replayer
 
         def run(ctx, kind=kind, res=res):
             sink = Sink(ctx)
@@ -607,16 +609,20 @@ class ReadOnlySource:
 
 
 class WriteOnlySink:
-    """a sink that offers nothing but write(b)"""
+    """a sink that offers nothing but write(b) and - like a transport with unsent data queued - KEEPS the objects it is
+    handed until they are flushed"""
 
     def __init__(self):
         self.chunks = []
 
     def write(self, b):
-        self.chunks.append(bytes(b))
+        self.chunks.append(b)
 
     def getvalue(self):
-        return b"".join(self.chunks)
+        try:
+            return b"".join(bytes(c) for c in self.chunks)
+        except ValueError:          # a released memoryview: the writer handed over a view of a buffer it then closed
+            return b"<released buffer>"
 
 
 def native_outcome(thunk):
